@@ -218,6 +218,7 @@ let parse_header_fields (fields : string list) : header =
       else if k = "to" then h.to_ <- ns v
       else if k = "slots" then h.slots <- ns v
       else if k = "did" then h.did <- ns v
+      else if k = "steady" then ()
       else if k.[0] = 'F' then begin
         let path, desc = match String.index_opt v '@' with
           | Some j -> string_of_hex (String.sub v 0 j), String.sub v (j + 1) (String.length v - j - 1)
